@@ -109,6 +109,18 @@ def gen_case(S, tier, prop, force=None):
         from ..refmodel import expand_names
         nd = [not any(nm in lowered for nm in expand_names([s["name"]])) for s in model["states"]]
         lims = gen_limits(rng, names_for_decl(model), decl_x0(model, x0), nd)
+        # a range-style entry shares one pair of limits: widen it to cover every member's x0
+        k = 0
+        for j, s_ in enumerate(model["states"]):
+            w = len(expand_names([s_["name"]]))
+            if lims[j] is not None and w > 1:
+                lo_, hi_ = lims[j]
+                if lo_ is not None:
+                    lo_ = min(lo_, min(x0[k:k + w]))
+                if hi_ is not None:
+                    hi_ = max(hi_, max(x0[k:k + w]))
+                lims[j] = [lo_, hi_]
+            k += w
         for s, lim in zip(model["states"], lims):
             if lim is not None:
                 s["lim"] = lim
@@ -153,8 +165,41 @@ def gen_case(S, tier, prop, force=None):
     else:
         env["R"] = {"mode": "natural"}
         batch = "fault_free"
+    ops = [op]
+    if force.get("grid"):
+        gop = dict(op)
+        gop["op"] = "grid"
+        gop.pop("single", None)
+        gop["n"] = rng.choice([1, 2, 3])
+        Tg = T
+        if rng.random() < 0.3:
+            Tg = t0 + (T - t0) * rng.choice([2.0, 5.0])      # grid extending past the estimate / extinction
+            if est * (Tg - t0) / (T - t0) > 4 * target:
+                Tg = T
+        gop["grid"] = gen_grid(rng, t0, Tg, start_at_t0=rng.random() < 0.8)
+        gop["gtype"] = rng.choice(["array", "array", "list", "tuple"])
+        gop.pop("T", None)
+        ops = [gop] if force.get("grid") == "only" else [op, gop]
+    if force.get("direct"):
+        for _ in range(rng.randint(1, 3)):
+            # states near the limits so that the guard is what decides
+            xs = []
+            for xi, lim in zip(x0, ref.limits):
+                lo, hi = lim
+                r_ = rng.random()
+                if hi is not None and r_ < 0.4:
+                    xs.append(int(hi - rng.randint(0, 1)))
+                elif r_ < 0.7:
+                    xs.append(int((lo or 0) + rng.randint(0, 2)))
+                else:
+                    xs.append(int(xi))
+            dop = {"op": "direct", "x": xs, "t": float(t0), "alg": rng.choice(["first", "tau", "tau"]),
+                   "seed": rng.randrange(2 ** 32), "reps": 6, "eps": rng.choice([0.03, 0.1, 0.3])}
+            if dop["alg"] == "tau" and rng.random() < 0.5:
+                dop["pre_tau"] = rng.choice([0.05, 0.2, 1.0, 3.0])
+            ops.append(dop)
     case = {"engine": "jump", "model": model, "theta": theta, "x0": x0, "t0": t0, "env": env,
-            "ops": [op], "est_events": float(round(est, 3)), "est_steps": float(round(est_steps, 3)),
+            "ops": ops, "est_events": float(round(est, 3)), "est_steps": float(round(est_steps, 3)),
             "batch": batch, "checks": [prop]}
     return case
 
@@ -453,8 +498,7 @@ def run_paths(sess, op, out, stats, log):
     n = int(op["n"])
     exact = bool(op["exact"])
     T = np_time(op["T"])
-    if sess.r.mode == "natural":
-        np.random.seed(int(op["seed"]) % (2 ** 32))
+    sess.r.reseed(op["seed"])
     results = []
     try:
         if op.get("single", True):
@@ -470,6 +514,9 @@ def run_paths(sess, op, out, stats, log):
                 out.append(fail("C04.walk.shape", 0, "asked %d paths, got %d/%d/%d" % (n, len(Xs), len(Js), len(Ts))))
             for X, J, Tt in zip(Xs, Js, Ts):
                 results.append((X, J, Tt, None))
+    except seams.Explosion:
+        stats["explosion_inconclusive"] = stats.get("explosion_inconclusive", 0) + 1
+        return results
     except seams.StepCap as e:
         if exact or op.get("pre_tau") is not None:
             out.append(fail("C04.termination.stepcap", -1, "simulation did not return: %s (estimate %s events, %s steps)" % (
@@ -506,10 +553,9 @@ def execute(case, keep_prefix=None):
             out.append(core.crash_failure("C04", e, -1, "model construction"))
             return finish(case, out, stats, log, sess, keep_prefix)
         for op in case["ops"]:
-            if op["op"] == "paths":
-                run_paths(sess, op, out, stats, log)
-            else:
+            if op["op"] not in _OPS:
                 raise core.HarnessError("unknown op %r" % (op,))
+            _OPS[op["op"]](sess, op, out, stats, log)
     finally:
         if sess is not None:
             sess.close()
@@ -626,3 +672,189 @@ def reductions(case):
         d = clone()
         d["theta"] = [1.0 for _ in c["theta"]]
         yield d
+
+
+# ---------------------------------------------------------------------------------------------------
+# gridded output (C15, C11 on gridded states)
+# ---------------------------------------------------------------------------------------------------
+def make_grid_arg(op):
+    g = [float(v) for v in op["grid"]]
+    ty = op.get("gtype", "array")
+    if ty == "list":
+        return list(g)
+    if ty == "tuple":
+        return tuple(g)
+    return np.array(g, float)
+
+
+def run_grid(sess, op, out, stats, log):
+    """Same stream twice: once raw with a scalar horizon (the underlying paths), once gridded."""
+    ode = sess.ode
+    ref, theta = sess.ref, sess.theta
+    F = out.append
+    ode.pre_tau = op.get("pre_tau")
+    if "eps" in op:
+        ode._epsilon = op["eps"]
+    n = int(op["n"])
+    exact = bool(op["exact"])
+    grid = [float(v) for v in op["grid"]]
+    G = len(grid)
+    m = ref.m
+    try:
+        sess.r.reseed(op["seed"])
+        sess.r.reset_log()
+        rX, rJ, rT = ode.solve_stochast(np_time(grid[-1]), n, exact=exact, full_output=True)
+        ndraw_raw = len(sess.r.log)
+        sess.r.reseed(op["seed"])
+        sess.r.reset_log()
+        gX, gJ, gT = ode.solve_stochast(make_grid_arg(op), n, exact=exact, full_output=True)
+        ndraw_grid = len(sess.r.log)
+    except (seams.StepCap, seams.Explosion):
+        stats["stepcap_inconclusive"] = stats.get("stepcap_inconclusive", 0) + 1
+        return
+    except core.RunTimeout:
+        raise
+    except Exception as e:
+        F(core.crash_failure("C15", e, -1, "solve_stochast(grid of %d points, n=%d, exact=%s)" % (G, n, exact)))
+        return
+    if ndraw_raw != ndraw_grid:
+        # the two runs did not consume the same stream: they are not the same paths; no verdict
+        stats["grid_stream_mismatch"] = stats.get("grid_stream_mismatch", 0) + 1
+        return
+    if not (len(gX) == n and len(gJ) == n):
+        F(fail("C15.grid.rows", 0, "asked %d runs, got %d state arrays and %d count arrays" % (n, len(gX), len(gJ))))
+        return
+    gT = np.asarray(gT, float)
+    if gT.shape != (G,) or not np.array_equal(gT, np.array(grid)):
+        F(fail("C15.grid.rows", 0, "returned times %s are not the requested grid" % (gT.tolist(),)))
+    Vc = ref.Vnum(sess.x0, sess.t0, theta)
+    for i in range(n):
+        X = np.asarray(gX[i], float)
+        J = np.asarray(gJ[i], float)
+        RX = np.asarray(rX[i], float)
+        RT = np.asarray(rT[i], float)
+        RJ = np.asarray(rJ[i], float)
+        stats["steps"] = stats.get("steps", 0) + len(RT) - 1
+        stats["events"] = stats.get("events", 0) + (float(RJ.sum()) if RJ.size else 0.0)
+        stats["sim_time"] = stats.get("sim_time", 0.0) + float(RT[-1] - RT[0])
+        log.append(["grid", core.digest([X.tolist(), J.tolist()])])
+        if X.shape != (G, ref.n):
+            F(fail("C15.grid.rows", i, "gridded states have shape %s for %d requested times and %d states" % (X.shape, G, ref.n)))
+            continue
+        if grid[0] == sess.t0 and not np.array_equal(X[0], sess.x0):
+            F(fail("C15.grid.first", i, "first row %s is not the initial state %s" % (X[0].tolist(), sess.x0.tolist())))
+        for k in range(G):
+            if not legal(X[k], ref.limits):
+                F(fail("C11.limit.grid", k, "gridded state %s outside limits %s at t=%r" % (X[k].tolist(), ref.limits, grid[k])))
+                break
+        if not exact:
+            continue
+        # exact mode: row k is the path state at the last event time <= grid[k]
+        near = [bool(np.any(np.abs(RT[1:] - g) <= 1e-12 * max(1.0, abs(g)))) for g in grid]
+        for k in range(G):
+            if near[k]:
+                stats["grid_boundary_skips"] = stats.get("grid_boundary_skips", 0) + 1
+                continue
+            idx = int(np.searchsorted(RT, grid[k], side="right")) - 1
+            idx = max(idx, 0)
+            if not np.array_equal(X[k], RX[idx]):
+                F(fail("C15.grid.state", k, "row %d (t=%r) is %s, the path is at %s (last event at t=%r)" % (
+                    k, grid[k], X[k].tolist(), RX[idx].tolist(), float(RT[idx]))))
+                break
+        if J.shape != (G - 1, m):
+            F(fail("C15.grid.counts", i, "per-interval counts have shape %s for %d intervals and %d events" % (J.shape, G - 1, m)))
+            continue
+        ev_t = RT[1:]
+        for k in range(G - 1):
+            if near[k] or near[k + 1]:
+                continue
+            sel = (ev_t > grid[k]) & (ev_t <= grid[k + 1])
+            want = RJ[sel].sum(axis=0) if RJ.size else np.zeros(m)
+            if not np.array_equal(J[k], want):
+                F(fail("C15.grid.counts", k, "interval (%r, %r]: reported counts %s, the path fired %s" % (
+                    grid[k], grid[k + 1], J[k].tolist(), np.asarray(want).tolist())))
+                break
+            if not np.array_equal(X[k + 1] - X[k], Vc.dot(J[k])):
+                F(fail("C15.grid.delta", k, "rows %d->%d differ by %s, V*counts is %s" % (
+                    k, k + 1, (X[k + 1] - X[k]).tolist(), Vc.dot(J[k]).tolist())))
+                break
+        stats["grid_runs_checked"] = stats.get("grid_runs_checked", 0) + 1
+
+
+def gen_grid(rng, t0, T, start_at_t0=True):
+    k = rng.choice([2, 3, 4, 6, 9])
+    if rng.random() < 0.5:
+        pts = [t0 + (T - t0) * j / (k - 1) for j in range(k)]
+    else:
+        inner = sorted(rng.uniform(t0, T) for _ in range(k - 2))
+        pts = [t0] + inner + [T]
+    if not start_at_t0:
+        pts = pts[1:] if len(pts) > 2 else [t0 + (T - t0) * 0.3, T]
+    # strictly increasing, exactly representable decimals keep the case readable
+    out = []
+    for p in pts:
+        p = float(round(p, 6))
+        if not out or p > out[-1]:
+            out.append(p)
+    if len(out) < 2:
+        out = [float(t0), float(round(T, 6))]
+    return out
+
+
+# ---------------------------------------------------------------------------------------------------
+# direct calls of the step functions (C11: a rejected step leaves state and time unchanged)
+# ---------------------------------------------------------------------------------------------------
+def run_direct(sess, op, out, stats, log):
+    ss = sess.pg.ss
+    ode = sess.ode
+    ref, theta = sess.ref, sess.theta
+    F = out.append
+    x = np.array(op["x"], float)
+    t = float(op["t"])
+    a = ref.rates(x, t, theta)
+    sess.r.reseed(op["seed"])
+    for rep in range(int(op.get("reps", 8))):
+        xin = x.copy()
+        try:
+            if op["alg"] == "first":
+                res = ss.firstReaction(xin, ode._state_lims, t, ode.vMat, ode.eventRateVector)
+            else:
+                ode.get_ReactantMatrix()
+                res = ss.tauLeap(xin, ode._state_lims, t, ode.vMat, ode._lambdaMat, ode.eventRateVector,
+                                 ode.transitionMean, ode.transitionVar, ode.pureOdeVector,
+                                 epsilon=op.get("eps", 0.03), pre_tau=op.get("pre_tau"))
+        except (seams.StepCap, seams.Explosion):
+            return
+        except core.RunTimeout:
+            raise
+        except Exception as e:
+            F(core.crash_failure("C11", e, rep, "%s step from x=%s" % (op["alg"], x.tolist())))
+            return
+        stats["direct_calls"] = stats.get("direct_calls", 0) + 1
+        if np.all(a == 0):
+            continue
+        if not (isinstance(res, tuple) and len(res) == 5):
+            stats["direct_odd_return"] = stats.get("direct_odd_return", 0) + 1
+            continue
+        t_new, dt, x_new, jumps, success = res
+        log.append(["direct", bool(success), core.digest(np.asarray(x_new, float).tolist())])
+        if not np.array_equal(xin, x):
+            F(fail("C11.limit.rejected", rep, "the step function modified its input state in place: %s -> %s" % (x.tolist(), xin.tolist())))
+            return
+        if success:
+            stats["direct_accepted"] = stats.get("direct_accepted", 0) + 1
+            if not legal(np.asarray(x_new, float), ref.limits):
+                F(fail("C11.limit.accepted", rep, "accepted step to %s violates limits %s" % (np.asarray(x_new).tolist(), ref.limits)))
+                return
+            if not (t_new > t):
+                F(fail("C11.limit.accepted", rep, "accepted step did not advance time: %r -> %r" % (t, t_new)))
+                return
+        else:
+            stats["direct_rejected"] = stats.get("direct_rejected", 0) + 1
+            if not np.array_equal(np.asarray(x_new, float), x) or t_new != t:
+                F(fail("C11.limit.rejected", rep, "rejected step returned state %s time %r, expected the unchanged %s, %r" % (
+                    np.asarray(x_new).tolist(), t_new, x.tolist(), t)))
+                return
+
+
+_OPS = {"paths": run_paths, "grid": run_grid, "direct": run_direct}
